@@ -124,6 +124,11 @@ class FileServer(Resource, aiocoap.interfaces.ObservableResource):
         path = request.opt.uri_path
         if any("/" in p or p in (".", "..") for p in path):
             raise InvalidPathError()
+        if "" in path[:-1]:
+            # Empty components are only meaningful as a trailing slash; a
+            # leading one would make the joined path absolute (escaping the
+            # root), inner ones produce aliases.
+            raise InvalidPathError()
 
         return self.root / "/".join(path)
 
